@@ -436,11 +436,14 @@ pub fn run_c06(rep: &Report) -> i32 {
             );
         }
     });
+    {
+        run_c06_huge(rep);
+    }
     let ev = rep.get("searches");
     let cov = J::obj()
         .set("evaluations", J::i(ev.max(1)))
         .set("distinct_nontrivial", J::i(rep.get("haystacks_with_match")))
-        .set("rule", J::s("for every packed variant (Rabin-Karp, slim Teddy 128, slim Teddy 256, fat Teddy 256, default heuristics; fingerprint length = min(4, shortest pattern)) x leftmost-first/longest x pattern family x core (all strings <= 2/3 over the family alphabet, each pattern, pattern.pattern, prefix.pattern, suffix.pattern, every one-byte near miss) x filler (clean, low-nybble decoy, high-nybble decoy) x every offset i x tail j: find_in on the whole haystack and on 5 span forms (every span for short haystacks in thorough) and find_iter, compared with SPEC leftmost selection over the occurrence set. A haystack is non-trivial when it contains at least one occurrence"))
+        .set("rule", J::s("for every packed variant (Rabin-Karp, slim Teddy 128, slim Teddy 256, fat Teddy 256, default heuristics; fingerprint length = min(4, shortest pattern)) x leftmost-first/longest x pattern family x core (all strings <= 2/3 over the family alphabet, each pattern, pattern.pattern, prefix.pattern, suffix.pattern, every one-byte near miss) x filler (clean, low-nybble decoy, high-nybble decoy) x every offset i x tail j: find_in on the whole haystack and on 5 span forms (every span for short haystacks in thorough) and find_iter, compared with SPEC leftmost selection over the occurrence set; plus six lists with a 65535 / 65536 / 65539-byte pattern and its 8-byte prefix (both orders) on four haystacks, every variant. A haystack is non-trivial when it contains at least one occurrence"))
         .set("variants_exercised", J::i(rep.set_len("variants_exercised") as i64))
         .set("exhaustive", J::Bool(true))
         .set("bounds", J::s(format!("total haystack length <= {}; offsets 0..={}; vector width considered {}", 2 * V + 8, imax(4, t), V)))
@@ -459,6 +462,159 @@ pub fn run_c06(rep: &Report) -> i32 {
             "the CPU running the check supports SSSE3 and AVX2 (otherwise fewer variants are built; recorded)",
         ],
     )
+}
+
+fn show_short(h: &[u8]) -> String {
+    if h.len() <= 120 {
+        json::show(h)
+    } else {
+        format!("{}...({} bytes)...{}", json::show(&h[..48]), h.len(), json::show(&h[h.len() - 24..]))
+    }
+}
+
+/// Pattern lengths around 2^16 (lengths and orders kept in 16-bit fields):
+/// a short pattern that is a prefix of a 65535 / 65536 / 65539-byte one, in
+/// both orders, two more patterns so that the packed prefilter is selected.
+pub fn huge_lists() -> Vec<(String, Pats)> {
+    let mut v = vec![];
+    for n in [65535usize, 65536, 65539] {
+        let mut long = b("needle01");
+        long.extend((0..n - 8).map(|i| b'g' + (i % 5) as u8));
+        v.push((format!("huge{}-short-first", n), vec![b("needle01"), long.clone(), b("cdcdcd"), b("efefef")]));
+        v.push((format!("huge{}-long-first", n), vec![long, b("needle01"), b("cdcdcd"), b("efefef")]));
+    }
+    v
+}
+
+fn huge_haystacks(pats: &Pats) -> Vec<Vec<u8>> {
+    let long = pats.iter().max_by_key(|p| p.len()).unwrap();
+    let mut v = vec![];
+    for pad in [0usize, 1, 17] {
+        let mut h = vec![b'.'; pad];
+        h.extend_from_slice(long);
+        h.extend_from_slice(b"..cdcdcd.");
+        v.push(h);
+    }
+    // the long pattern cut one byte short, then the short one
+    let mut h = vec![b'.'; 3];
+    h.extend_from_slice(&long[..long.len() - 1]);
+    h.extend_from_slice(b".needle01");
+    v.push(h);
+    v
+}
+
+fn run_c06_huge(rep: &Report) {
+    let lists = huge_lists();
+    let mut items = vec![];
+    for l in 0..lists.len() {
+        for kind in [Kind::LF, Kind::LL] {
+            for var in PVar::ALL {
+                items.push((l, kind, var));
+            }
+        }
+    }
+    let desc = |i: usize| format!("{} {} {}", lists[items[i].0].0, items[i].1.name(), items[i].2.name());
+    par_for_desc(rep, items.len(), &desc, |ix, st| {
+        let (l, kind, var) = items[ix];
+        let (name, pats) = (&lists[l].0, &lists[l].1);
+        let spec = Spec::new(pats.clone(), false);
+        {
+            {
+                let sr = match catch_unwind(AssertUnwindSafe(|| build_packed(pats, kind, var))) {
+                    Ok(Some(s)) => s,
+                    Ok(None) => return,
+                    Err(p) => {
+                        rep.violation(Violation {
+                            property: rep.property.clone(),
+                            what: "packed-build-panic".into(),
+                            case: packed_case(pats, kind, var, &[], 0, 0, "build"),
+                            detail: format!("{} {} {}: build panicked: {}", name, kind.name(), var.name(), crate::aut::panic_msg(&p)),
+                            tags: vec![],
+                        });
+                        return;
+                    }
+                };
+                for h in huge_haystacks(pats) {
+                    let exp = spec.find(kind, &h, 0, h.len(), false);
+                    let got = catch_unwind(AssertUnwindSafe(|| sr.find(&h).map(mm)));
+                    st.add("searches", 1);
+                    st.add("huge_pattern_searches", 1);
+                    if got.as_ref().ok() != Some(&exp) {
+                        rep.violation(Violation {
+                            property: rep.property.clone(),
+                            what: "packed-find-mismatch".into(),
+                            case: packed_case(pats, kind, var, &h, 0, h.len(), "find"),
+                            detail: format!("{} {} {}: find(\"{}\"): got {:?}, SPEC {:?}", name, kind.name(), var.name(), show_short(&h), got.map_err(|p| crate::aut::panic_msg(&p)), exp),
+                            tags: vec![("variant".into(), var.name().into()), ("kind".into(), kind.name().into())],
+                        });
+                    }
+                    let exp_it = spec.iter(kind, &h, 0, h.len(), false);
+                    let got_it = catch_unwind(AssertUnwindSafe(|| sr.find_iter(&h).take(64).map(mm).collect::<Vec<M>>()));
+                    st.add("searches", 1);
+                    if got_it.as_ref().ok() != Some(&exp_it) {
+                        rep.violation(Violation {
+                            property: rep.property.clone(),
+                            what: "packed-iter-mismatch".into(),
+                            case: packed_case(pats, kind, var, &h, 0, h.len(), "find_iter"),
+                            detail: format!("{} {} {}: find_iter(\"{}\"): got {:?}, SPEC {:?}", name, kind.name(), var.name(), show_short(&h), got_it.map_err(|p| crate::aut::panic_msg(&p)), exp_it),
+                            tags: vec![("variant".into(), var.name().into()), ("kind".into(), kind.name().into())],
+                        });
+                    }
+                }
+            }
+        }
+    });
+}
+
+fn run_c05_huge(rep: &Report) {
+    let lists = huge_lists();
+    let mut items = vec![];
+    for l in 0..lists.len() {
+        for kind in [Kind::LF, Kind::LL, Kind::Std] {
+            items.push((l, kind));
+        }
+    }
+    let desc = |i: usize| format!("{} {}", lists[items[i].0].0, items[i].1.name());
+    par_for_desc(rep, items.len(), &desc, |ix, st| {
+        let (l, kind) = items[ix];
+        let (name, pats) = (&lists[l].0, &lists[l].1);
+        {
+            let ak = AhoCorasickKind::NoncontiguousNFA;
+            let (on, off) = match (build_ac(pats, kind, false, ak, true), build_ac(pats, kind, false, ak, false)) {
+                (Ok(a), Ok(b2)) => (a, b2),
+                (a, b2) => {
+                    rep.violation(Violation {
+                        property: rep.property.clone(),
+                        what: "build-failed".into(),
+                        case: ac_case("prefilter", pats, kind, false, ak, &[], 0, 0, false),
+                        detail: format!("{}: build failed: {:?} / {:?}", name, a.err(), b2.err()),
+                        tags: vec![],
+                    });
+                    return;
+                }
+            };
+            for h in huge_haystacks(pats) {
+                aho_corasick::verif::reset_counters();
+                let a = observe(&on, kind, &h, 0, h.len(), false);
+                let c = aho_corasick::verif::counters();
+                let b2 = observe(&off, kind, &h, 0, h.len(), false);
+                st.add("comparisons", 1);
+                st.add("huge_pattern_comparisons", 1);
+                if c.prefilter_calls > 0 {
+                    st.add("comparisons_where_prefilter_ran", 1);
+                }
+                if a != b2 {
+                    rep.violation(Violation {
+                        property: rep.property.clone(),
+                        what: "prefilter-changes-result".into(),
+                        case: ac_case("prefilter", pats, kind, false, ak, &h, 0, h.len(), false),
+                        detail: format!("{} {} nnfa: \"{}\": prefilter on vs off: {}", name, kind.name(), show_short(&h), obs_diff(&a, &b2)),
+                        tags: vec![("kind".into(), kind.name().into())],
+                    });
+                }
+            }
+        }
+    });
 }
 
 fn packed_case(pats: &Pats, kind: Kind, var: PVar, h: &[u8], s: usize, e: usize, api: &str) -> J {
@@ -935,11 +1091,14 @@ pub fn run_c05(rep: &Report) -> i32 {
             );
         }
     });
+    {
+        run_c05_huge(rep);
+    }
     let ev = rep.get("comparisons");
     let cov = J::obj()
         .set("evaluations", J::i(ev.max(1)))
         .set("distinct_nontrivial", J::i(rep.get("comparisons_where_prefilter_ran")))
-        .set("rule", J::s("for every prefilter-targeting family (memmem, start bytes 1/2/3, rare bytes 1/2/3, packed, case-insensitive variants) x match kind x automaton kind: the same searcher built with prefilter(true) and prefilter(false) must agree on try_find, find_iter, is_match, existence of an earliest match and the overlapping iterator, for every haystack filler^i.core.filler^j (cores incl. trigger byte at every small distance before a true match), 5 span forms, unanchored and anchored. A comparison is non-trivial when the prefilter was actually invoked (hook counter)"))
+        .set("rule", J::s("for every prefilter-targeting family (memmem, start bytes 1/2/3, rare bytes 1/2/3, packed, case-insensitive variants) x match kind x automaton kind: the same searcher built with prefilter(true) and prefilter(false) must agree on try_find, find_iter, is_match, existence of an earliest match and the overlapping iterator, for every haystack filler^i.core.filler^j (cores incl. trigger byte at every small distance before a true match), 5 span forms, unanchored and anchored; plus six lists with a 65535 / 65536 / 65539-byte pattern and its 8-byte prefix on four haystacks (nNFA). A comparison is non-trivial when the prefilter was actually invoked (hook counter)"))
         .set("prefilter_variants_selected", J::Arr(rep.set_members("prefilter_variants_selected").into_iter().map(J::s).collect()))
         .set("exhaustive", J::Bool(true))
         .set("bounds", J::s(format!("total haystack length <= {}; offsets 0..={}", 2 * V + 8, imax(4, t))))
@@ -1207,7 +1366,7 @@ fn check_span(rep: &Report, st: &mut Stats, ac: &AhoCorasick, pats: &Pats, kind:
 /// accessors of `Input`, `Span` and `Match` that callers use to interpret a
 /// result. Exhaustive over haystack lengths 0..=5 and every valid (s, e),
 /// including s = e + 1.
-fn check_input_forms(rep: &Report, st: &mut Stats) {
+pub fn check_input_forms(rep: &Report, st: &mut Stats) {
     use std::ops::Bound;
     let pats: Pats = vec![b("ab"), b("b"), b("")];
     let ac = match build_ac(&pats, Kind::Std, false, AhoCorasickKind::NoncontiguousNFA, true) {
@@ -1220,9 +1379,11 @@ fn check_input_forms(rep: &Report, st: &mut Stats) {
     let full = b("ababb");
     let describe = |i: &Input<'_>| -> String {
         format!(
-            "start={} end={} span={:?} range={:?} done={} anchored={:?} earliest={} find={:?}",
+            "start={} end={} span={:?} range={:?} done={} anchored={:?} earliest={} find={:?} is_match={} earliest-find={:?}",
             i.start(), i.end(), i.get_span(), i.get_range(), i.is_done(), i.get_anchored(), i.get_earliest(),
-            ac.try_find(i.clone()).map(|o| o.map(mm)).map_err(|e| e.to_string())
+            ac.try_find(i.clone()).map(|o| o.map(mm)).map_err(|e| e.to_string()),
+            ac.is_match(i.clone()),
+            ac.try_find(i.clone().earliest(true)).map(|o| o.map(mm)).map_err(|e| e.to_string())
         )
     };
     let mut bad = |form: &str, h: &[u8], s: usize, e: usize, got: String, want: &str| {
